@@ -240,8 +240,7 @@ func overlayFor(config string, pkgs []string, withReplay bool) (map[string][]byt
 				harnesses = append(harnesses, string(m[1]))
 			}
 			virt := strings.TrimSuffix(base, ".go")
-			virt = strings.TrimSuffix(strings.TrimSuffix(virt, "_asm"), "_purego")
-			ov[filepath.Join(RepoRoot, d, "zz_verif_"+virt+".go")] = b
+			ov[filepath.Join(RepoRoot, d, "zz_verif_"+virt+"_x.go")] = b
 		}
 		if pkgName == "" {
 			continue
